@@ -497,6 +497,46 @@ pub fn desugar(rw: &mut Rw, e: &Expr) -> Option<Expr> {
                 _ => None,
             }
         }
+        Expr::ForLoop(fl) if matches!(strip_paren(&fl.expr), Expr::Array(_)) => {
+            // `for PAT in [e1, e2, ..] { body }`: unrolled (body must not break / continue)
+            let arr = match strip_paren(&fl.expr) {
+                Expr::Array(a) => a.clone(),
+                _ => return None,
+            };
+            let mut hc = HasContinue(false);
+            let mut b = fl.body.clone();
+            hc.visit_block_mut(&mut b);
+            struct HasBreak(bool);
+            impl VisitMut for HasBreak {
+                fn visit_expr_mut(&mut self, e: &mut Expr) {
+                    match e {
+                        Expr::Break(_) => self.0 = true,
+                        Expr::Closure(_) | Expr::While(_) | Expr::ForLoop(_) | Expr::Loop(_) => {}
+                        _ => visit_mut::visit_expr_mut(self, e),
+                    }
+                }
+            }
+            let mut hb = HasBreak(false);
+            hb.visit_block_mut(&mut b);
+            if hc.0 || hb.0 {
+                rw.err("R-ITER for-array: body contains break/continue".into());
+                return None;
+            }
+            let mut body_stmts = fl.body.stmts.clone();
+            if let Some(Stmt::Macro(m)) = body_stmts.first() {
+                if m.mac.path.is_ident("vx_loop") {
+                    body_stmts.remove(0);
+                }
+            }
+            let mut blocks: Vec<Stmt> = vec![];
+            for el in arr.elems.iter() {
+                let mut binds = vec![];
+                bind(&fl.pat, el, &mut binds);
+                blocks.push(parse_quote!({ #(#binds)* #(#body_stmts)* }));
+            }
+            rw.fire("R-ITER.for_array_unroll");
+            Some(parse_quote!({ #(#blocks)* }))
+        }
         Expr::ForLoop(fl) => {
             let s = parse_for_src(rw, &fl.expr)?;
             // body must not `continue` (the index increment would be skipped)
